@@ -3,7 +3,7 @@ import json, os, subprocess
 import common
 from common import Infra, run_tlc
 
-CFG_DEFAULTS = dict(kind="Map", mode="pure", forked=False, par=1, cap=0, inputs=[], fail=[], pred=[], n=0, freq=1, ops=1,
+CFG_DEFAULTS = dict(elem="", twin="", kind="Map", mode="pure", forked=False, par=1, cap=0, inputs=[], fail=[], pred=[], n=0, freq=1, ops=1,
                     interval=1, monoid="sum", step="succ", seed=1, gate=False, stderr=False, dup=[], unit_ns=0)
 
 
@@ -166,7 +166,8 @@ def _judge_chunk(traces, d, tag, chunk, c0):
     viols = []
     if True:
         part = traces[c0:c0 + chunk]
-        slim = [{"cfg": t["cfg"], "outs": t["outs"], "nin": t["nin"], "wins": t["wins"], "crash": bool(t.get("crash"))} for t in part]
+        # (TLC's integers are 32 bits wide: a Take bound beyond every input is represented by a million)
+        slim = [{"cfg": dict(t["cfg"], n=min(t["cfg"].get("n", 0), 10 ** 6)), "outs": t["outs"], "nin": t["nin"], "wins": t["wins"], "crash": bool(t.get("crash"))} for t in part]
         # a crashed schedule has no outs recorded: give it the names its kind has
         for s in slim:
             if not s["outs"]:
